@@ -2,7 +2,10 @@ module gosmt
 
 go 1.26.8
 
-require golang.org/x/tools v0.50.0
+require (
+	github.com/cespare/xxhash/v2 v2.3.0
+	golang.org/x/tools v0.50.0
+)
 
 require (
 	golang.org/x/mod v0.41.0 // indirect
